@@ -101,7 +101,8 @@ fn decomp_idx(cl: Call) -> Option<usize> { let n = call_name(cl); DECOMP.iter().
 static COVER: std::sync::Mutex<[bool; 400]> = std::sync::Mutex::new([false; 400]);
 /// every value of the catalogue at one z, all computed in ONE back-to-back sequence of calls
 pub struct Table { un: Vec<Cmplx>, abs: f64, arg: f64, abs_sqr: f64, polar: Cmplx, pw: Vec<Cmplx>, pf: Vec<Cmplx>, lg: Vec<Cmplx>,
-                   ws: Vec<Cmplx>, xs: Vec<f64>, bs: Vec<Cmplx>, repeat_ok: bool }
+                   ws: Vec<Cmplx>, xs: Vec<f64>, bs: Vec<Cmplx>, repeat_ok: bool,
+                   pw_x: Vec<(Cmplx, Cmplx)>, pf_x: Vec<(f64, Cmplx)>, lg_x: Vec<(Cmplx, Cmplx)> }
 impl Table {
     fn get(&self, name: &str) -> Cmplx {
         match UNARY.iter().position(|u| *u == name) { Some(i) => self.un[i],
@@ -141,24 +142,54 @@ fn call_order(nw: usize, nx: usize, nb: usize, mode: u64, key: u64) -> Vec<Call>
     }
     v
 }
-/// call everything on z in the given order, each function twice in a row (results must be bit-identical)
-pub fn run_pass(z: Cmplx, ws: Vec<Cmplx>, xs: Vec<f64>, bs: Vec<Cmplx>, mode: u64, key: u64) -> Table {
+/// the signed-zero twins of a value: every zero component flipped, alone and together (empty when no component is zero)
+fn twins(z: Cmplx) -> Vec<Cmplx> {
+    let (zr, zi) = (z.real == 0.0, z.imag == 0.0);
+    let mut v = Vec::new();
+    if zr { v.push(c(-z.real, z.imag)); }
+    if zi { v.push(c(z.real, -z.imag)); }
+    if zr && zi { v.push(c(-z.real, -z.imag)); }
+    v
+}
+fn call_on(cl: Call, z: Cmplx, w: Cmplx, x: f64, b: Cmplx) -> Cmplx {
+    match cl { Call::Pow(_) => z.pow(&w), Call::Powf(_) => z.powf(x), Call::Log(_) => z.log(b), _ => unreachable!() }
+}
+/// Call everything on zs[0] in the given order, each function twice in a row (results must be bit-identical).
+/// Caches keyed by ==, which conflates +0.0 and -0.0: IMMEDIATELY after the call on an argument the same function is
+/// called on each signed-zero twin of that argument and then on the argument again (both orders) - for z (zs[1..] are
+/// its twins; each gets its own table, judged like any other point), for the exponent and for the base (the twin values
+/// are kept as extra entries of the table and judged against their own reference).
+pub fn run_group(zs: &[Cmplx], ws: Vec<Cmplx>, xs: Vec<f64>, bs: Vec<Cmplx>, mode: u64, key: u64) -> Vec<Table> {
     let nan = c(f64::NAN, f64::NAN);
-    let mut t = Table { un: vec![nan; UNARY.len()], abs: f64::NAN, arg: f64::NAN, abs_sqr: f64::NAN, polar: nan, pw: vec![nan; ws.len()], pf: vec![nan; xs.len()],
-                        lg: vec![nan; bs.len()], ws, xs, bs, repeat_ok: true };
-    let order = call_order(t.ws.len(), t.xs.len(), t.bs.len(), mode, key);
+    let mk = || Table { un: vec![nan; UNARY.len()], abs: f64::NAN, arg: f64::NAN, abs_sqr: f64::NAN, polar: nan, pw: vec![nan; ws.len()], pf: vec![nan; xs.len()],
+                        lg: vec![nan; bs.len()], ws: ws.clone(), xs: xs.clone(), bs: bs.clone(), repeat_ok: true, pw_x: vec![], pf_x: vec![], lg_x: vec![] };
+    let mut ts: Vec<Table> = zs.iter().map(|_| mk()).collect();
+    let order = call_order(ws.len(), xs.len(), bs.len(), mode, key);
     let mut cover = COVER.lock().unwrap();
     let mut prev: Option<usize> = None;
+    let store = |t: &mut Table, cl: Call, r: Cmplx| match cl { Call::Un(i) => t.un[i] = r, Call::Abs => t.abs = r.real, Call::Arg => t.arg = r.real, Call::AbsSqr => t.abs_sqr = r.real,
+        Call::Polar => t.polar = r, Call::Pow(j) => t.pw[j] = r, Call::Powf(j) => t.pf[j] = r, Call::Log(j) => t.lg[j] = r };
     for cl in order {
-        let r1 = do_call(cl, z, &t); let r2 = do_call(cl, z, &t);
-        if !same_bits(r1, r2) { t.repeat_ok = false; if std::env::var("CFUN_DEBUG").is_ok() { eprintln!("repeat differs: {:?} z={:?} {:?} {:?}", cl, z, r1, r2); } }
-        match cl { Call::Un(i) => t.un[i] = r1, Call::Abs => t.abs = r1.real, Call::Arg => t.arg = r1.real, Call::AbsSqr => t.abs_sqr = r1.real, Call::Polar => t.polar = r1,
-                   Call::Pow(j) => t.pw[j] = r1, Call::Powf(j) => t.pf[j] = r1, Call::Log(j) => t.lg[j] = r1 }
+        let z = zs[0];
+        let r1 = do_call(cl, z, &ts[0]); let r2 = do_call(cl, z, &ts[0]);
+        let mut ok = same_bits(r1, r2);
+        store(&mut ts[0], cl, r1);
+        // twins of z: f(z), f(z'), f(z) ...
+        for i in 1..zs.len() { let ri = do_call(cl, zs[i], &ts[0]); store(&mut ts[i], cl, ri); let back = do_call(cl, z, &ts[0]); if !same_bits(back, r1) { ok = false; } }
+        // twins of the second argument
+        match cl {
+            Call::Pow(j) => for w2 in twins(ws[j]) { let v = call_on(cl, z, w2, 0.0, nan); ts[0].pw_x.push((w2, v)); if !same_bits(call_on(cl, z, ws[j], 0.0, nan), r1) { ok = false; } },
+            Call::Powf(j) => if xs[j] == 0.0 { let v = call_on(cl, z, nan, -xs[j], nan); ts[0].pf_x.push((-xs[j], v)); if !same_bits(call_on(cl, z, nan, xs[j], nan), r1) { ok = false; } },
+            Call::Log(j) => for b2 in twins(bs[j]) { let v = call_on(cl, z, nan, 0.0, b2); ts[0].lg_x.push((b2, v)); if !same_bits(call_on(cl, z, nan, 0.0, bs[j]), r1) { ok = false; } },
+            _ => {}
+        }
+        if !ok { for t in ts.iter_mut() { t.repeat_ok = false; }
+                 if std::env::var("CFUN_DEBUG").is_ok() { eprintln!("repeat differs: {:?} z={:?}", cl, z); } }
         let d = decomp_idx(cl);
         if let Some(k) = d { cover[k * 20 + k] = true; if let Some(p) = prev { cover[p * 20 + k] = true; } }
         prev = d;
     }
-    t
+    ts
 }
 
 fn real_fn(name: &str, x: f64) -> f64 {
@@ -217,22 +248,21 @@ fn eval_rel(rel: &Value, range: &Value, z: Cmplx, t: &Table) -> Vec<Eval> {
             "sqrt_sq" => { let w = t.get("sqrt"); let mut e = if cfinite(w) { ev(cdist(cd(w).mul(cd(w)), cd(z)), &[z.abs()]) } else { bad() };
                 e.range_val = Some(part_of(w, part)); out.push(e); }
             "pow_def" | "pow_near" => { let l = ln_dd(z);
-                for (j, w) in t.ws.iter().enumerate() { let got = t.pw[j];
+                for (w, got) in t.ws.iter().cloned().zip(t.pw.iter().cloned()).chain(t.pw_x.iter().cloned()) { let w = &w;
                     let mut best = bad();
                     for lv in cut_limits(z, l) { let want = exp_dd(cd(*w).mul(lv));
                         let e = if cfinite(got) { ev(cdist(cd(got), want), &[want.abs()]) } else { bad() };
                         if e.err / e.scale < best.err / best.scale || !best.err.is_finite() { best = e; } }
                     out.push(best); } }
             "powf_def" | "powf_near" => { let l = ln_dd(z);
-                for (j, x) in t.xs.iter().enumerate() { let got = t.pf[j];
+                for (x, got) in t.xs.iter().cloned().zip(t.pf.iter().cloned()).chain(t.pf_x.iter().cloned()) { let x = &x;
                     let mut best = bad();
                     for lv in cut_limits(z, l) { let want = exp_dd(cscale(lv, *x));
                         let e = if cfinite(got) { ev(cdist(cd(got), want), &[want.abs()]) } else { bad() };
                         if e.err / e.scale < best.err / best.scale || !best.err.is_finite() { best = e; } }
                     out.push(best); } }
             "log_def" => { let lz = t.get("ln");
-                for (j, b) in t.bs.iter().enumerate() { let lb = b.ln(); if lb.abs() < 0.1 { continue; }
-                    let got = t.lg[j]; let want = cd(lz).div(cd(lb));
+                for (b, got) in t.bs.iter().cloned().zip(t.lg.iter().cloned()).chain(t.lg_x.iter().cloned()) { let lb = b.ln(); if lb.abs() < 0.1 { continue; } let want = cd(lz).div(cd(lb));
                     out.push(if cfinite(got) && cfinite(lz) && cfinite(lb) { ev(cdist(cd(got), want), &[want.abs()]) } else { bad() }); } }
             "polar_def" => { let r = z.real.hypot(z.imag); let th0 = z.imag.atan2(z.real);
                 for th in [th0, th0 + 2.0 * PI, -th0, th0 - PI] { let got = Cmplx::polar(r, th); let want = CDD { re: DD::prod(r, th.cos()), im: DD::prod(r, th.sin()) };
@@ -388,18 +418,44 @@ pub fn exec(case: &Value, out: &mut Out) {
                     _ => {}
                 }
                 let key = (pos as u64).wrapping_mul(31).wrapping_add(k as u64 * 7).wrapping_add(seed);
-                let tab = match guarded(|| run_pass(*z, ws, xs, bs, (pos as u64 + k as u64) % 4, key)) { Ok(t) => t,
+                // the -0.0 regions and the point 0 are evaluated together with their signed-zero twins
+                let mut group = vec![*z]; if gets(reg, "kind") == "exact" { group.extend(twins(*z)); }
+                let tabs = match guarded(|| run_group(&group, ws, xs, bs, (pos as u64 + k as u64) % 4, key)) { Ok(t) => t,
                     Err(_) => { n += 1; worst = f64::INFINITY; wz = *z; COVER.clear_poison(); continue; } };
+                for (zm, tab) in group.iter().zip(tabs.iter()) {
+                let z = zm;
                 if !tab.repeat_ok { repeat = false; wz = *z; }
-                for e in eval_rel(rel, range, *z, &tab) {
+                for e in eval_rel(rel, range, *z, tab) {
                     n += 1;
                     let ratio = if e.err.is_finite() { e.err / (UNIT * e.scale * cond * amp_at(gets(rel, "amp"), *z)) } else { f64::INFINITY };
                     if ratio > worst { worst = ratio; wz = *z; }
                     if let Some(v) = e.range_val { if !range_ok(range, v) { range_all = false; if worst == 0.0 { wz = *z; } } }
                 }
+                }
             }
             out.ev(json!({"op": "rel", "cid": cid, "pos": pos, "ri": case["ri"], "gi": case["gi"], "rel": rel["id"], "relkind": rel["kind"], "cond": rel["cond"],
                           "rangef": range["f"], "rangeclosed": range["loClosed"].as_bool().unwrap_or(true) && range["hiClosed"].as_bool().unwrap_or(true), "amp": rel["amp"], "npts": n, "err_units": ratio_units(worst), "fine": ratio_units(worst * 1e4), "range": range_all, "repeat": repeat, "worst_z": zhex(wz)}));
+        }
+        "soak" => {
+            // call-count dependence: n guarded calls of one function on four fixed inexact arguments, each result compared
+            // bit for bit with the first call's on the same argument
+            let pos = geti(case, "pos"); let fname = gets(case, "fn").to_string(); let n = getu(case, "minpts");
+            let zs = [c(1.1, 3.3), c(-0.7, 0.21), c(2.3456, -0.789), c(-0.31, -1.7)];
+            let (w, x, b) = (c(1.3, -0.4), 1.7f64, c(2.1, 0.6));
+            let f = |k: usize| -> Cmplx { let z = zs[k]; match fname.as_str() {
+                "new" => Cmplx::new(z.real, z.imag), "zero" => Cmplx::zero(), "one" => Cmplx::one(), "abs_sqr" => c(z.abs_sqr(), 0.0),
+                "abs" => c(z.abs(), 0.0), "arg" => c(z.arg(), 0.0), "pow" => z.pow(&w), "powf" => z.powf(x), "log" => z.log(b),
+                "polar" => Cmplx::polar(z.real.abs(), z.imag), name => apply1(name, z) } };
+            let mut first: [Option<Cmplx>; 4] = [None; 4];
+            let (mut panics, mut diffs, mut first_bad) = (0i64, 0i64, -1i64);
+            for k in 0..n {
+                match guarded(|| f(k % 4)) {
+                    Ok(r) => match first[k % 4] { None => first[k % 4] = Some(r), Some(r0) => if !same_bits(r0, r) { diffs += 1; if first_bad < 0 { first_bad = k as i64; } } },
+                    Err(_) => { panics += 1; if first_bad < 0 { first_bad = k as i64; } }
+                }
+            }
+            out.ev(json!({"op": "soak", "cid": cid, "pos": pos, "fn": fname, "cond": case["cond"], "npts": n as i64, "panics": panics, "diffs": diffs, "first_bad": first_bad,
+                          "err_units": 0, "fine": 0, "range": true, "repeat": diffs == 0}));
         }
         "sqrt_exact" | "powk" => {
             let pos = geti(case, "pos");
